@@ -1370,7 +1370,13 @@ class ValueObject(Value):
                 result = fn.execute(args_, Environment(), None)
                 return result.value if result.isString() else str(result)
             except CklRuntimeError as e:
-                e.stacktrace.append("_str_")
+                # the hook is called from no place in the program: where it
+                # was written is the position there is
+                pos = getattr(fn, "pos", None)
+                if pos is not None:
+                    if e.pos is None:
+                        e.pos = pos
+                    e.stacktrace.append("_str_(self=<object>) " + str(pos))
                 raise
         else:
             return (
